@@ -455,6 +455,14 @@ func (p *fprinter) spellStrChar(r rune, q byte) string {
 }
 
 func (p *fprinter) lit(n *FNode) {
+	start := p.off()
+	defer func() {
+		raw := p.sb.String()[start:]
+		if n.IC {
+			raw = raw[:len(raw)-1]
+		}
+		n.Raw = raw
+	}()
 	q := byte('"')
 	rs := []rune(n.Lit)
 	validUTF8Bytes := utf8.ValidString(n.Lit)
@@ -943,6 +951,24 @@ func ExpectedMethods(g *FGrammar) [][]string {
 		push()
 		walk(r.Expr)
 		pop()
+	}
+	return out
+}
+
+// LitLines: "rawtokenhex|valuehex" for every string literal of the grammar (raw token without the i suffix)
+func LitLines(g *FGrammar) []string {
+	var out []string
+	var walk func(n *FNode)
+	walk = func(n *FNode) {
+		if n.K == FLit {
+			out = append(out, fmt.Sprintf("%x|%x", n.Raw, n.Lit))
+		}
+		for _, k := range n.Kids {
+			walk(k)
+		}
+	}
+	for _, r := range g.Rules {
+		walk(r.Expr)
 	}
 	return out
 }
